@@ -311,6 +311,88 @@ let resync () =
   il := { iprice = l.price; iorders = os };
   taints := []
 
+
+(* ---------- pure helper API (Model/Helpers.v): command group `H <fn> <args...>` ----------
+   `H`  answers as a build WITH overflow checks behaves (debug profile: an overflowing u64
+        `*` / `+` / sum panics -> "panic"),
+   `HR` as a build without them (release profile: the wrapped value).
+   The Rust side (harness/src/helpers.rs, mode `helpers`) prints the implementation's answers in
+   the same one-line form. *)
+let tx_of_string s =
+  match String.split_on_char '/' s with
+  | [i; tk; mk; pr; q; sd] -> { tx_idx = n_of_string i; tx_taker = oid_of_string tk; tx_maker = oid_of_string mk;
+                                tx_price = n_of_string pr; tx_qty = n_of_string q; tx_side = side_of_string sd }
+  | _ -> failwith ("bad tx " ^ s)
+let b01 b = if b then "1" else "0"
+let string_of_cmp = function Lt -> "L" | Eq -> "E" | Gt -> "G"
+let stats_op_of_string s =
+  match String.split_on_char ':' s with
+  | ["a"] -> SAdded | ["r"] -> SRemoved | ["z"] -> SReset
+  | ["e"; q; p] -> SExec (n_of_string q, n_of_string p)
+  | _ -> failwith ("bad stats op " ^ s)
+let string_of_stats st =
+  String.concat "/" [string_of_n st.s_added; string_of_n st.s_removed; string_of_n st.s_executed;
+                     string_of_n st.s_qty; string_of_n st.s_value]
+let result_of_txs txs = { r_taker = oid_nil; r_txs = txs; r_remaining = N0; r_complete = false; r_filled = [] }
+let checked release ovf v = if (not release) && ovf then "panic" else string_of_n v
+
+let helper (release : bool) (fn : string) (args : string list) : string =
+  match fn, args with
+  | "opp", [s] -> string_of_side (opposite (side_of_string s))
+  | "oid_u64", [n] -> string_of_oid (oid_from_u64 (n_of_string n))
+  | "oid_nil", [] -> string_of_oid oid_nil
+  | "oid_default", [] ->
+    (* only the variant is determined (a fresh random ULID) *)
+    if oid_is_ulid (Ulid N0) && not (oid_is_ulid (Uuid N0)) then "ulid" else "?"
+  | "tif_imm", [t] -> b01 (tif_is_immediate (tif_of_string t))
+  | "tif_hasexp", [t] -> b01 (tif_has_expiry (tif_of_string t))
+  | "tif_expired", [t; now; close] ->
+    b01 (tif_is_expired (tif_of_string t) (n_of_string now) (if close = "-" then None else Some (n_of_string close)))
+  | "acc", [o] ->
+    let o = order_of_string o in
+    Printf.sprintf "id=%s price=%s side=%s ts=%s tif=%s vis=%s hid=%s imm=%s fok=%s po=%s"
+      (string_of_oid (oid_of o)) (string_of_n (price_of o)) (string_of_side (side_of o)) (string_of_n (ts_of o))
+      (string_of_tif (tif_of o)) (string_of_n (vis o)) (string_of_n (hid o))
+      (b01 (order_is_immediate o)) (b01 (order_is_fill_or_kill o)) (b01 (order_is_post_only o))
+  | "wrq", [o; q] -> string_of_order (with_reduced_quantity (order_of_string o) (n_of_string q))
+  | "refresh", [o; amt] ->
+    let (o', used) = refresh_iceberg (order_of_string o) (n_of_string amt) in
+    string_of_order o' ^ "/" ^ string_of_n used
+  | "tx_maker", [t] -> string_of_side (tx_maker_side (tx_of_string t))
+  | "tx_value", [t] -> let t = tx_of_string t in checked release (tx_total_value_ovf t) (tx_total_value t)
+  | "mr_execq", [txs] ->
+    let r = result_of_txs (parse_list tx_of_string txs) in
+    checked release (executed_quantity_ovf r) (executed_quantity_w r)
+  | "mr_execv", [txs] ->
+    let r = result_of_txs (parse_list tx_of_string txs) in
+    checked release (executed_value_ovf r) (executed_value r)
+  | "mr_filled", [ks] ->
+    let r = List.fold_left add_filled (result_of_txs []) (parse_list oid_of_string ks) in
+    list_str string_of_oid r.r_filled
+  | "txl", [txs] ->
+    let l = txl_from_vec (parse_list tx_of_string txs) in
+    Printf.sprintf "len=%s empty=%s vec=%s" (string_of_n (txl_len l)) (b01 (txl_is_empty l))
+      (list_str string_of_tx (txl_into_vec l))
+  | "lvl_cmp", [p1; os1; p2; os2] ->
+    let a = from_data (n_of_string p1) (parse_list order_of_string os1)
+    and b = from_data (n_of_string p2) (parse_list order_of_string os2) in
+    let c = level_cmp a b in
+    Printf.sprintf "eq=%s ne=%s cmp=%s pcmp=%s lt=%s le=%s gt=%s ge=%s"
+      (b01 (level_eqb a b)) (b01 (not (level_eqb a b))) (string_of_cmp c) (string_of_cmp c)
+      (b01 (level_ltb a b)) (b01 (level_leb a b)) (b01 (level_ltb b a)) (b01 (level_leb b a))
+  | "lvl_total", [p; os] ->
+    let l = from_data (n_of_string p) (parse_list order_of_string os) in
+    Printf.sprintf "price=%s vis=%s hid=%s cnt=%s total=%s" (string_of_n l.price) (string_of_n l.cvis)
+      (string_of_n l.chid) (string_of_n l.ccnt)
+      (checked release (level_total_quantity_ovf l) (level_total_quantity_w l))
+  | "stats", [ops] ->
+    let ops = parse_list stats_op_of_string ops in
+    if release then string_of_stats (stats_run stats0 ops)
+    else (match stats_run_debug N0 stats0 ops with
+        | (st, None) -> string_of_stats st
+        | (st, Some i) -> "panic@" ^ string_of_n i ^ " " ^ string_of_stats st)
+  | _ -> "error unknown helper call: " ^ String.concat " " (fn :: args)
+
 let handle line =
   match String.split_on_char ' ' line with
   | ["MA"; o; inc] -> "= " ^ string_of_mres (match_against (order_of_string o) (n_of_string inc))
@@ -650,6 +732,8 @@ let handle line =
   | ["JUDGE"; "drained"; rem; after; cv; ch; cc] ->
     if drained_b (n_of_string rem) (parse_list order_of_string after) (n_of_string cv) (n_of_string ch) (n_of_string cc)
     then "= 1" else "= 0"
+  | "H" :: fn :: args -> "= " ^ helper false fn args
+  | "HR" :: fn :: args -> "= " ^ helper true fn args
   | ["PING"] -> "= pong"
   | _ -> "= error unknown command: " ^ line
 
